@@ -415,17 +415,40 @@ AXES = ["x_axis", "y_axis", "z_axis", "w_axis"]
 
 
 def gen_extras(start, want_types, specials):
-    """hand-shaped wrappers: field reads/writes, fmt, Sum/Product, Hash, map"""
+    """hand-shaped wrappers: field reads/writes, fmt, Sum/Product, Hash, map, optional-feature code"""
     out_fns, rows = [], []
     i = start
 
-    def add(name, owner, fname, in_tys, out_tys, body, arg_names):
+    def add(name, owner, fname, in_tys, out_tys, body, arg_names, cfg=None):
         nonlocal i
-        out_fns.append("fn op_%d(a: &[Val]) -> Vec<Val> {\n%s\n}" % (i, body))
-        rows.append('    OpDesc { name: %s, owner: %s, fname: %s, is_trait: true, args: &[%s], arg_names: &[%s], outs: &[%s], f: op_%d },'
-                    % (json.dumps(name), json.dumps(owner), json.dumps(fname), ", ".join(in_tys),
+        attr = ("#[cfg(%s)]\n" % cfg) if cfg else ""
+        out_fns.append("%sfn op_%d(a: &[Val]) -> Vec<Val> {\n%s\n}" % (attr, i, body))
+        rows.append('    %sOpDesc { name: %s, owner: %s, fname: %s, is_trait: true, args: &[%s], arg_names: &[%s], outs: &[%s], f: op_%d },'
+                    % (("#[cfg(%s)] " % cfg) if cfg else "", json.dumps(name), json.dumps(owner), json.dumps(fname), ", ".join(in_tys),
                        ", ".join(json.dumps(n) for n in arg_names), ", ".join(out_tys), i))
         i += 1
+
+    # optional-feature code that consumes the padded types (public API when the feature is on): serde, mint, approx
+    IO = 'feature = "interop"'
+    f32t = "Ty::S(Elem::F32)"
+    for t in ("Vec3A", "Mat3A", "Affine3A"):
+        g = "Ty::G(TyId::%s)" % t
+        add("serde_json::to_string(&%s)" % t, t, "serde_json", [g], ["Ty::Str"],
+            "    let s: glam::%s = V::from_val(&a[0]);\n    vec![Val::Str(serde_json::to_string(&s).unwrap_or_else(|e| format!(\"<error {e}>\")))]" % t, ["self"], IO)
+        for m in ("abs_diff_eq", "relative_eq", "ulps_eq"):
+            call = {"abs_diff_eq": "approx::AbsDiffEq::abs_diff_eq(&x, &y, e)", "relative_eq": "approx::RelativeEq::relative_eq(&x, &y, e, e)",
+                    "ulps_eq": "approx::UlpsEq::ulps_eq(&x, &y, e, 4)"}[m]
+            add("approx::%s(&%s, &%s, eps)" % (m, t, t), t, "approx_" + m, [g, g, f32t], ["Ty::S(Elem::Bool)"],
+                "    let x: glam::%s = V::from_val(&a[0]);\n    let y: glam::%s = V::from_val(&a[1]);\n    let e: f32 = V::from_val(&a[2]);\n    vec![Val::Bool(%s)]" % (t, t, call),
+                ["a", "b", "eps"], IO)
+    gv = "Ty::G(TyId::Vec3A)"
+    for mt in ("Vector3", "Point3"):
+        add("mint::%s::<f32>::from(Vec3A)" % mt, "Vec3A", "mint", [gv], ["Ty::Arr(&Ty::S(Elem::F32), 3)"],
+            "    let s: glam::Vec3A = V::from_val(&a[0]);\n    let m: mint::%s<f32> = s.into();\n    vec![V::into_val([m.x, m.y, m.z])]" % mt, ["self"], IO)
+    gm = "Ty::G(TyId::Mat3A)"
+    for mt in ("ColumnMatrix3", "RowMatrix3"):
+        add("mint::%s::<f32>::from(Mat3A)" % mt, "Mat3A", "mint", [gm], ["Ty::Arr(&Ty::S(Elem::F32), 9)"],
+            "    let s: glam::Mat3A = V::from_val(&a[0]);\n    let m: mint::%s<f32> = s.into();\n    vec![V::into_val([m.x.x, m.x.y, m.x.z, m.y.x, m.y.y, m.y.z, m.z.x, m.z.y, m.z.z])]" % mt, ["self"], IO)
 
     for t in sorted(want_types):
         if t not in VEC:
